@@ -80,11 +80,16 @@ func evalByteCond(v ssa.Value, cv ssa.Value, c int64, depth int) (bool, bool) {
 		if !ok {
 			return false, false
 		}
-		res, ok := interpPure(callee, arg, depth+1)
+		res, ok := interpPureP(progOf(callee), callee, arg, depth+1)
 		return res != 0, ok
 	}
 	return false, false
 }
+
+// progOf: the Program a function belongs to (set at load; the checker analyses one program at a time).
+func progOf(fn *ssa.Function) *Program { return currentProgram }
+
+var currentProgram *Program
 
 var pureStdlib = map[string]func(rune) bool{
 	"unicode.IsLetter": unicode.IsLetter, "unicode.IsNumber": unicode.IsNumber, "unicode.IsDigit": unicode.IsDigit,
@@ -96,6 +101,11 @@ var pureStdlib = map[string]func(rune) bool{
 // argument by walking its CFG (comparisons, arithmetic, phis, conversions, nested pure predicates only).
 // ok is false as soon as anything else is met: the caller then reports the decision as not evaluable.
 func interpPure(fn *ssa.Function, arg int64, depth int) (int64, bool) {
+	return interpPureP(nil, fn, arg, depth)
+}
+
+// interpPureP: interpPure with access to the package-level constant tables of program p (may be nil).
+func interpPureP(p *Program, fn *ssa.Function, arg int64, depth int) (int64, bool) {
 	if depth > 6 {
 		return 0, false
 	}
@@ -131,6 +141,29 @@ func interpPure(fn *ssa.Function, arg int64, depth int) (int64, bool) {
 			if x.Op == token.NOT {
 				k, ok := eval(x.X)
 				return 1 - k, ok
+			}
+			if p != nil {
+				if t, idx := p.tableLoad(x); t != nil {
+					k, ok := eval(idx)
+					if !ok || k < 0 || k >= t.length {
+						return 0, false // out of range: the real code would panic
+					}
+					if c, ok := t.byInt[k]; ok {
+						return constToInt(c)
+					}
+					return 0, true // zero value
+				}
+			}
+		case *ssa.Lookup:
+			if p != nil {
+				if t, idx := p.tableLoad(x); t != nil {
+					if k, ok := eval(idx); ok {
+						if c, ok := t.byInt[k]; ok {
+							return constToInt(c)
+						}
+						return 0, true
+					}
+				}
 			}
 		case *ssa.BinOp:
 			a, ok1 := eval(x.X)
@@ -182,7 +215,7 @@ func interpPure(fn *ssa.Function, arg int64, depth int) (int64, bool) {
 			}
 			if callee != nil && !x.Call.IsInvoke() && len(callee.Params) == 1 && len(x.Call.Args) == 1 && len(callee.Blocks) > 0 {
 				if a, ok := eval(x.Call.Args[0]); ok {
-					return interpPure(callee, a, depth+1)
+					return interpPureP(p, callee, a, depth+1)
 				}
 			}
 		}
@@ -203,7 +236,7 @@ func interpPure(fn *ssa.Function, arg int64, depth int) (int64, bool) {
 						env[x] = k
 					}
 				}
-			case *ssa.BinOp, *ssa.UnOp, *ssa.Convert, *ssa.ChangeType, *ssa.DebugRef:
+			case *ssa.BinOp, *ssa.UnOp, *ssa.Convert, *ssa.ChangeType, *ssa.DebugRef, *ssa.IndexAddr, *ssa.Lookup:
 			case *ssa.Call:
 				// evaluated on demand; must be a pure nested predicate
 				if _, ok := eval(x); !ok {
